@@ -337,7 +337,7 @@ def run_shard(shard, rec, tier, seed):
         # start and end timestamp must equal the un-hinted query of its tick
         for i in range(shard["count"]):
             rng = harness.rng_for(seed, ID, shard["name"], i)
-            case = gen.gen_chart(rng, "hostile" if i % 2 else "realistic", n_tracks=rng.choice([1, 2, 3]), n_groups=rng.choice([5, 40, 200]),
+            case = gen.chart_or_interactions(rng, i, "hostile" if i % 2 else "realistic", rec, n_tracks=rng.choice([1, 2, 3]), n_groups=rng.choice([5, 40, 200]),
                                  n_tempos=rng.choice([1, 2, 5, 12, 40]))
             judge_disordered(rec, case["text"], "all kinds of a generated chart", "sorted")
             rec.cls("whole_generated_chart")
